@@ -120,6 +120,7 @@ func (g *zzGate) Select(r *http.Request) *UpstreamHost {
 
 // VerifH14aAccounting: N concurrent proxied requests through one upstream block.
 func VerifH14aAccounting() {
+	verifrt.Budget(2000000) // a retry loop that never ends is cut here (paths need < 50 k instructions)
 	verifrt.Concurrent(1 + verifrt.Tier())
 	n := 2
 	maxConns := int64(verifrt.IntRange("max_conns", 0, 2))
@@ -184,6 +185,7 @@ func VerifH14aAccounting() {
 // VerifH14bOneStep: from an arbitrary pre-state one proxied request restores the in-flight count on
 // return and on panic, and records exactly one failure that expires after fail_timeout.
 func VerifH14bOneStep() {
+	verifrt.Budget(2000000) // a retry loop that never ends is cut here (paths need < 50 k instructions)
 	failTimeout := 10 * time.Second
 	u := &staticUpstream{from: "/", MaxFails: 1 << 30, FailTimeout: failTimeout}
 	h, err := u.NewHost("http://backend")
@@ -264,6 +266,7 @@ func (b *zzFailoverBackend) RoundTrip(req *http.Request) (*http.Response, error)
 // request is being forwarded to one backend no other backend counts it as in flight (so max_conns
 // of a backend that already failed is not consumed), and all counters return to zero.
 func VerifH14cFailover() {
+	verifrt.Budget(2000000) // a retry loop that never ends is cut here (paths need < 50 k instructions)
 	n := verifrt.IntRange("hosts", 2, 3)
 	u := &staticUpstream{from: "/", MaxFails: 1, FailTimeout: 10 * time.Second, MaxConns: 1, TryDuration: 3 * time.Second, TryInterval: 250 * time.Millisecond,
 		Policy: &First{}}
@@ -308,6 +311,7 @@ func (t *zzScriptedRT) RoundTrip(req *http.Request) (*http.Response, error) {
 // consistent: never negative, zero once fail_timeout has passed, and the next failure counts as one
 // (the backend is down again at max_fails 1).
 func VerifH14dHealthCheckedOutage() {
+	verifrt.Budget(2000000) // a retry loop that never ends is cut here (paths need < 50 k instructions)
 	failTimeout := 10 * time.Second
 	if !verifrt.Symbolic() {
 		failTimeout = 20 * time.Millisecond // natively AdvanceTime sleeps at most 50ms
